@@ -42,6 +42,11 @@ SIX = [1000, 4000, 4096, 5000, 10000, 16384]
 ALL_IDS_UP_TO = 4096       # thorough: every LCM shard id of a big pair when the LCM is at most this (DESIGN: 2*10^5, see C07.md)
 SAMPLES_THOROUGH = 1000    # thorough: sampled ids otherwise (DESIGN: 10^4)
 CHUNK = 120000             # records per LcmMapObs run
+# arrival order as a dimension (the design's Map is a function of the id alone): pairs with LCM > 1024 whose server objects are
+# driven with a high id first + ascending / descending / seeded random sweeps over 1000..1024+SWEEP (harness: vlPair.Sweep)
+ORDER_PAIRS = [(3, 1024), (1024, 3), (5, 512), (512, 5), (1024, 2048), (4096, 10000), (12288, 16384), (16384, 1000)]
+SWEEP = {"quick": 2500, "thorough": 6000}
+FRONTIER = {"quick": 12, "thorough": 40}     # state-guided opens per server object for every big pair (vlPair.Frontier)
 EXTREME = [(16384, 14565), (14565, 16384)]     # LCM = 238632960: the first LCM shard ids the stream observer cannot count
 
 
@@ -67,16 +72,24 @@ def pair_list(tier):
     for a in SIX:
         for b in SIX:
             big.append((a, b))
+    big += ORDER_PAIRS
     seen = set()
+    nbig = 0
     for (l, r) in big:
         if (l, r) in seen:
             continue
         seen.add((l, r))
         lcm = l * r // gcd(l, r)
         if thorough and lcm <= ALL_IDS_UP_TO:
-            pairs.append(dict(l=l, r=r, mode="all", n=0, grpc=8))
+            pr = dict(l=l, r=r, mode="all", n=0, grpc=8)
         else:
-            pairs.append(dict(l=l, r=r, mode="sample", n=SAMPLES_THOROUGH if thorough else 24, grpc=8 if thorough else 3))
+            pr = dict(l=l, r=r, mode="sample", n=SAMPLES_THOROUGH if thorough else 24, grpc=8 if thorough else 3)
+        if lcm > 1024:
+            nbig += 1
+            pr["frontier"] = FRONTIER[tier]
+            if (l, r) in ORDER_PAIRS or (thorough and nbig % 12 == 0):
+                pr["sweep"] = SWEEP[tier]
+        pairs.append(pr)
     for (l, r) in EXTREME:
         pairs.append(dict(l=l, r=r, mode="boundary", n=0, grpc=0))
     return pairs
@@ -125,8 +138,10 @@ def classify(rec, clause, after_overflow=False):
         if rec.get("fail") == "hang":
             # a hang that follows an observer overflow on the same server object is the same defect (lock left held)
             cause = "stream-observer-overflow" if after_overflow else "stream-open-hangs"
-        elif "cannot be negative" in d or "index out of range" in d:
+        elif "cannot be negative" in d or ("index out of range" in d and rec.get("s", 0) >= 238609294):
             cause = "stream-observer-overflow"
+        elif "index out of range" in d:
+            cause = "stream-observer-index-out-of-range"
         elif "remapping shard count" in d or "cannot map shard ID" in d:
             cause = "map-not-unique"
         else:
@@ -160,13 +175,20 @@ def run(c, a):
     # ---- 2. binding
     pairs = pair_list(c.tier)
     if a.replay:
-        rec = json.load(open(a.replay))["record"]
-        pairs = [dict(l=rec["l"], r=rec["r"], mode="ids", ids=[rec.get("s", 1)], n=0, grpc=1 if rec.get("path") == "grpc" else 0)]
+        rp = json.load(open(a.replay))
+        rec = rp["record"]
+        if rec.get("order", "base") != "base" and rp.get("arrival"):
+            # an arrival-order scenario: the same ids in the same order on a fresh server object
+            pairs = [dict(l=rec["l"], r=rec["r"], mode="ids", ids=rp["arrival"], n=0, grpc=0, order=rec["order"])]
+        else:
+            pairs = [dict(l=rec["l"], r=rec["r"], mode="ids", ids=[rec.get("s", 1)], n=0,
+                          grpc=1 if rec.get("path") == "grpc" else 0)]
     binpath = c.go_test_build("proxy", HARNESS, name="lcm")
     # cost-balanced shards: pairs with many ids first, round robin
     def cost(p):
         lcm = p["l"] * p["r"] // gcd(p["l"], p["r"])
-        return 2 * (lcm if p["mode"] == "all" else p["n"] + 8) + 30
+        sweep = 3 * min(p.get("sweep", 0) + 24, max(0, lcm - 1000)) if p.get("sweep") else 0
+        return 2 * ((lcm if p["mode"] == "all" else p["n"] + 8) + sweep + p.get("frontier", 0)) + 30
     if a.replay:
         cost = lambda p: 1     # noqa
     order = sorted(range(len(pairs)), key=lambda i: -cost(pairs[i]))
@@ -214,6 +236,7 @@ def run(c, a):
             t.join()
     nrec = not_run = 0
     by_kind, by_path, clauses = {}, {}, {}
+    by_order, gap_hits, growths = {}, {}, {}
     nontrivial = set()
     with_wf = 0
     viol_pairs = set()
@@ -230,8 +253,21 @@ def run(c, a):
             raise Broken("LcmMapObs did not report on shard %d: %s" % (k, ro.error_text[-1200:]))
         nrec += len(lines)
         overflowed_at = {}
+        prev_shape = {}        # server object -> (len, cap) of its counter slice after the previous open
+        arrivals = {}          # server object -> line numbers of its opens, in arrival order
         for n, ln in enumerate(lines):
             e = json.loads(ln)
+            if e["ev"] == "stream":
+                so = (e["l"], e["r"], e["dir"], e.get("order", "base"))
+                arrivals.setdefault(so, []).append(n)
+                by_order[so[3]] = by_order.get(so[3], 0) + 1
+                pl, pc = prev_shape.get(so, (1 << 60, 0))
+                if pl <= e["s"] < pc:
+                    gap_hits[so[3]] = gap_hits.get(so[3], 0) + 1     # the id fell between len and cap left by an earlier growth
+                if e.get("obsLen", -1) >= 0:
+                    if so in prev_shape and e["obsLen"] != prev_shape[so][0]:
+                        growths[so[3]] = growths.get(so[3], 0) + 1
+                    prev_shape[so] = (e["obsLen"], e["obsCap"])
             if e["ev"] == "stream" and is_overflow(e):
                 overflowed_at.setdefault((e["l"], e["r"], e["dir"]), n + 1)
             if e["ev"] == "stream" and e["fail"] == "skipped-wedged":
@@ -253,22 +289,31 @@ def run(c, a):
                 raise Broken("LcmMapObs: fast Lcm/Gcd disagree with the definition on %s" % e)
             clauses[clause] = clauses.get(clause, 0) + 1
             viol_pairs.add((e["l"], e["r"]))
+            rp = {"kind": "lcm-record", "clause": clause, "record": e,
+                  "how": "./check C07 --replay <this file>: the pair of this record, for an arrival-order scenario the same "
+                         "ids in the same order on a fresh server object"}
+            if e["ev"] == "stream" and e.get("order", "base") != "base":
+                so = (e["l"], e["r"], e["dir"], e["order"])
+                rp["arrival"] = [json.loads(lines[x])["s"] for x in arrivals[so] if x <= ln - 1]
             c.violation(classify(e, clause, overflowed_at.get((e["l"], e["r"], e.get("dir")), 1 << 60) < ln),
-                        "clause %s violated by the real code: %s" % (clause, json.dumps(e)[:400]),
-                        {"kind": "lcm-record", "clause": clause, "record": e,
-                         "how": "VERIF_IN with {l,r,mode} of this pair; go test -run TestVerifLcm"})
+                        "clause %s violated by the real code: %s" % (clause, json.dumps(e)[:400]), rp)
     if nrec == 0 or by_kind.get("stream", 0) == 0:
         raise Broken("no records")
     c.coverage.update({
         "pairs": len(pairs), "records_validated": nrec, "records_by_kind": by_kind, "stream_records_by_path": by_path,
+        "stream_records_by_arrival_order": by_order, "observer_growths_seen_by_order": growths,
+        "opens_between_len_and_cap_of_an_earlier_growth": gap_hits,
         "stream_records_with_workflow_ids": with_wf, "stream_records_not_run_server_wedged": not_run, "violating_clauses": clauses,
         "pairs_with_violation": len(viol_pairs), "design_states": design_states, "design_cfg": cfg,
         "seeded_design_error_reported": rs.violated, "tlaps": proof,
         "evaluations": nrec, "distinct_nontrivial": len(nontrivial),
         "rule": "one record per (l, r, direction, LCM shard id): all ids for l,r<=16%s, boundary ids {1,L,c,c+1,L-c+1} plus "
                 "seeded samples (half of them owners of random workflow ids) for powers of two and mixed composites up to 16384; "
-                "non-trivial = distinct (l,r,dir,s) with s > own count of the serving cluster (the remap is not the identity) "
-                "that produced a result" % (" and every pair with LCM<=%d" % ALL_IDS_UP_TO if thorough else ""),
+                "arrival order: for %d pairs with LCM>1024 fresh server objects get a high id first and then 1000..1024+%d ascending, "
+                "descending and in seeded random order, and every big pair gets %d state-guided opens at the borders (len, cap) of "
+                "the server's counter slice; non-trivial = distinct (l,r,dir,s) with s > own count of the serving cluster (the remap is not the identity) "
+                "that produced a result" % (" and every pair with LCM<=%d" % ALL_IDS_UP_TO if thorough else "",
+                                            sum(1 for x in pairs if x.get("sweep")), SWEEP[c.tier], FRONTIER[c.tier]),
         "exhaustive": False,
     })
     samples = sample_recs or [json.loads(chunks[0].split("\n")[2])]
